@@ -44,11 +44,42 @@ def check_funds_fn(ctx, inst, chk):
         tables.append((b, conds, cond_strings(ctx, conds)))
     # locate the find call
     finds = [(bb, p) for bb, p, fr, t in P.calls(chk) if p and common.last_seg(p) in ("find", "position", "any", "find_map")]
-    if len(finds) != 1 or common.last_seg(finds[0][1]) != "find":
+    filters = [(bb, p) for bb, p, fr, t in P.calls(chk) if p and common.last_seg(p) == "filter" and "Iterator" in p]
+    dup_probe = set()       # condition strings stating "no second coin of the denom" (filter form)
+    if not finds and len(filters) == 1:
+        # `let mut sent = funds.iter().filter(pred); sent.next()`  ==  funds.iter().find(pred); a later `sent.next()` probes
+        # for a second coin of the same denom
+        flv = P.val_call(chk, chk.body, filters[0][0])
+        nexts = []
+        for bb, p, fr, t in P.calls(chk):
+            if p and common.last_seg(p) == "next" and "Filter" in p:
+                nv = P.val_call(chk, chk.body, bb)
+                base = nv[4][0]
+                while base[0] in ("ref", "mutref", "deref") and len(base) > 1:
+                    base = base[1]
+                if base == flv or flv in list(common.walk(nv[4][0])):
+                    nexts.append(bb)
+        first = [b for b in nexts if all(b == o or chk.body.block_dominates(b, o) for o in nexts)]
+        if len(first) != 1:
+            inst.fail("C09.R1:find", chk.path, chk.span, "the filtered coin iterator is not read by one first `next()`: unrecognised-idiom")
+            return
+        fv0 = P.val_call(chk, chk.body, first[0])
+        find_root = "C:%s@%s:bb%d" % (generic_path(fv0[3]), chk.path, fv0[2])
+        for o in nexts:
+            if o != first[0]:
+                ov = P.val_call(chk, chk.body, o)
+                oroot = "C:%s@%s:bb%d" % (generic_path(ov[3]), chk.path, ov[2])
+                dup_probe |= {"is_some(%s) is [False]" % oroot, "is_none(%s) is [True]" % oroot, "discr(%s) in ['None']" % oroot}
+        fv = ("call", flv[1], first[0], fv0[3], (flv[4][0], flv[4][1]))
+        where_find = first[0]
+    elif len(finds) != 1 or common.last_seg(finds[0][1]) != "find":
         inst.fail("C09.R1:find", chk.path, chk.span, "expected exactly one Iterator::find over the attached funds, found %s: unrecognised-idiom" % [common.last_seg(p) for _, p in finds])
         return
-    fv = P.val_call(chk, chk.body, finds[0][0])
-    find_root = "C:%s@%s:bb%d" % (generic_path(fv[3]), chk.path, fv[2])
+    else:
+        fv = P.val_call(chk, chk.body, finds[0][0])
+        find_root = "C:%s@%s:bb%d" % (generic_path(fv[3]), chk.path, fv[2])
+        where_find = finds[0][0]
+    finds = [(where_find, fv[3])]
     ads, kind, src = common.iter_chain(fv[4][0])
     if ads or kind != "iter" or set(ctx.roots(src)) != {info_funds}:
         inst.fail("C09.R1:find-source", chk.path, common.span_of_block_term(chk, finds[0][0]),
@@ -75,11 +106,16 @@ def check_funds_fn(ctx, inst, chk):
     ]
     # equivalent single-comparison form: amount == find(..).map(|c| c.amount).unwrap_or(zero)
     zero_roots = [r for b_, conds_, cs_ in tables for c_ in cs_ for r in re.findall(r"C:cosmwasm_std::Uint128::zero@[\w:<>{}#]+:bb\d+", c_)]
+    if any("or(%s.amount;K:default)" % find_root in c_ for b_, conds_, cs_ in tables for c_ in cs_):
+        zero_roots.append("K:default")      # Uint128::default() is zero
     for zr in set(zero_roots):
         alt = {"%s in ['NativeToken']" % info_disc, "eq(%s) is [True]" % ", ".join(sorted([self_amount, "or(%s.amount;%s)" % (find_root, zr)]))}
         expected.append(("native-sent-equal", alt))
     seen = set()
     for b, conds, cs in tables:
+        if dup_probe & cs:
+            cs = cs - dup_probe
+            inst.site("a second attached coin of the same denom is rejected (stricter than required) at %s" % common.span_of_block_term(chk, b))
         hit = [n for n, e in expected if e == cs]
         if not hit:
             inst.fail("C09.R1:ok-region:%s" % "&".join(sorted(cs)), chk.path, common.span_of_block_term(chk, b),
